@@ -518,3 +518,21 @@ package tchannel
 //@   label each-announced-header-is-written-in-full
 //@   loop 0 step w.err == nil ==> len(prev(w.remaining)) - len(w.remaining) == 2 + len(k.String()) + len(v)
 //@   property C06
+
+// ---------------------------------------------------------------------------
+// The library's own frame pools (C01: "every frame ... at most 65535 bytes"):
+// wherever a pool makes a frame, it makes one whose payload capacity is the
+// protocol's maximum payload -- NewFrame's precondition (<= 65519) is checked at
+// each of these sites. (What a pool hands out from its store is what was
+// released into it; the FramePool interface contract stays an assumption, T4.)
+// ---------------------------------------------------------------------------
+//@ func (c channelFramePool) Get() (f *Frame)
+//@   nosafety
+//@   modifies all
+//@   label made-frames-have-the-maximum-payload-capacity
+//@   atcall NewFrame arg0 == 65519
+//@   property C01 C03
+//@ closure NewSyncFramePool 1
+//@   label made-frames-have-the-maximum-payload-capacity
+//@   atcall NewFrame arg0 == 65519
+//@   property C01 C03
